@@ -82,6 +82,23 @@ Section Facts.
 Variable A : Type.
 Variable zero : A.
 
+Lemma lookup_set_same {X} (x : ident) (v : X) (l : list (ident * X)) : lookup x (set x v l) = Some v.
+Proof.
+  induction l as [|[y w] t IH]; cbn [set lookup].
+  - rewrite Pos.eqb_refl. reflexivity.
+  - destruct (Pos.eqb x y) eqn:E; cbn [lookup]; rewrite E; [reflexivity|exact IH].
+Qed.
+
+Lemma lookup_set_other {X} (x y : ident) (v : X) (l : list (ident * X)) :
+  x <> y -> lookup x (set y v l) = lookup x l.
+Proof.
+  intros N. induction l as [|[z w] t IH]; cbn [set lookup].
+  - destruct (Pos.eqb_spec x y); [contradiction|reflexivity].
+  - destruct (Pos.eqb_spec y z) as [->|Nz]; cbn [lookup].
+    + destruct (Pos.eqb_spec x z); [contradiction|reflexivity].
+    + destruct (Pos.eqb x z); [reflexivity|exact IH].
+Qed.
+
 Lemma elems_length (l : list A) : length (elems l) = length l.
 Proof. apply map_length. Qed.
 
